@@ -310,8 +310,8 @@ Proof.
   2:{ linv_split; try assumption. intros q r w Hq. congruence. }
   destruct A3 as (Hfr & Hhs & Hreq & Hnet & Hrd).
   unfold write_message. destruct (rp_rel p) eqn:Erel.
-  2:{ pose proof (write_be_static (S (length (s_changes s))) cf (s_changes s) p []) as Hs.
-      destruct (write_be_loop (S (length (s_changes s))) cf (s_changes s) p []) as [p1 out]. cbn [fst] in Hs.
+  2:{ pose proof (write_be_static (S (2 * length (s_changes s))) cf (s_changes s) p []) as Hs.
+      destruct (write_be_loop (S (2 * length (s_changes s))) cf (s_changes s) p []) as [p1 out]. cbn [fst] in Hs.
       apply static_fr in Hs. destruct Hs as (_ & Hrel & _).
       linv_split; try assumption. intros q r w Hq Hqrel. cbn in Hq. inversion Hq; subst. congruence. }
   unfold ROk in Hrd.
@@ -734,8 +734,8 @@ Proof.
   2:{ linv_split; try assumption. intros q r w Eq. congruence. }
   rewrite F1 in B3. destruct B3 as (Hfr1 & Hhs1 & Hreq1 & Hnet1 & Hrd1). destruct A3 as (Hfr & Hhs & Hreq & Hnet & Hrd).
   unfold write_message. destruct (rp_rel p) eqn:Erel.
-  2:{ pose proof (write_be_static (S (length (s_changes s1))) cf (s_changes s1) p []) as Hs.
-      destruct (write_be_loop (S (length (s_changes s1))) cf (s_changes s1) p []) as [p1 out]. cbn [fst] in Hs.
+  2:{ pose proof (write_be_static (S (2 * length (s_changes s1))) cf (s_changes s1) p []) as Hs.
+      destruct (write_be_loop (S (2 * length (s_changes s1))) cf (s_changes s1) p []) as [p1 out]. cbn [fst] in Hs.
       apply static_fr in Hs. destruct Hs as (_ & Hrel & _).
       linv_split; cbn; try assumption.
       intros q r w Eq Hq. injection Eq as <-. congruence. }
